@@ -37,6 +37,32 @@ def body(c):
         for form in forms:
             d, supplied = execcheck.with_vars(doc, form)
             cases.append({"id": 0, "flavour": "static", "doc": d, "opIndex": 1, "vars": supplied, "world": rng.choice(worlds), "schedule": []})
+    # sub-fields with arguments: literals, variables supplied / omitted with default / omitted without default,
+    # directly and through fragments ("with its resolved arguments")
+    I = {"k": "named", "n": "Int"}
+    def iv(n): return {"k": "int", "v": str(n)}
+    def var(n): return {"k": "var", "name": n}
+    def fld(d, name, alias="", args=None): return {"d": d, "k": "field", "name": name, "alias": alias, "on": "", "dir": "", "args": args or []}
+    def A(name, val): return {"name": name, "val": val}
+    vdefs = [{"name": "x", "ty": I, "hasDefault": True, "default": iv(5)}, {"name": "y", "ty": I, "hasDefault": False, "default": iv(0)}]
+    arg_docs = [
+        [fld(1, "a"), fld(2, "arg", args=[A("x", var("x")), A("y", var("y"))]), fld(2, "n")],
+        [fld(1, "a"), fld(2, "arg", args=[A("x", iv(3))]), fld(2, "arg", "k", args=[A("y", var("y"))])],
+        [fld(1, "a"), {"d": 2, "k": "spread", "name": "", "alias": "", "on": "A", "dir": ""}, fld(3, "arg", args=[A("x", var("x"))]), fld(2, "id")],
+        [fld(1, "node"), {"d": 2, "k": "inline", "name": "", "alias": "", "on": "A", "dir": ""}, fld(3, "self"), fld(4, "arg", args=[A("y", var("x"))]), fld(4, "arg", "z", args=[A("x", iv(1)), A("y", iv(2))])],
+        [fld(1, "ann"), fld(2, "selfNN"), fld(3, "arg", "p", args=[A("x", var("y"))]), fld(3, "n")],
+    ]
+    supplies = [[], [{"name": "x", "val": iv(1)}], [{"name": "y", "val": iv(2)}], [{"name": "x", "val": iv(1)}, {"name": "y", "val": iv(2)}]]
+    world0 = gqlgen.WorldGen(ts, random.Random(c.seed + 99), p_null=0.0).world()
+    for fl in arg_docs:
+        for sup in supplies:
+            d = gqlgen.tree_from_flat(fl, "query")
+            d["ops"][0]["vars"] = vdefs
+            d["ops"][0]["name"] = "Q"
+            # both variables must be used somewhere (NoUnusedVariables): add a harmless use on the root
+            d["ops"][0]["sels"].append({"k": "field", "name": "a", "alias": "use", "args": [], "dirs": [], "nid": 9990, "line": 0, "col": 0,
+                                        "sels": [{"k": "field", "name": "arg", "alias": "", "args": [A("x", var("x")), A("y", var("y"))], "dirs": [], "sels": [], "nid": 9991, "line": 0, "col": 0}]})
+            cases.append({"id": 0, "flavour": "static", "doc": d, "opIndex": 1, "vars": sup, "world": world0, "schedule": [], "ext": False})
     for i, x in enumerate(cases):
         x["id"] = i + 1
     vlib.write_ndjson(c.path("cases.ndjson"), cases)
@@ -70,7 +96,7 @@ def body(c):
                      % (n, total, "" if exhaustive else ", seeded sample"))
     for o in [x for x in obs if "@" in x["text"]][:2]:
         c.sample({"text": o["text"], "vars": o["vars"], "views": [[e["path"], e["view"]] for e in o["obs"]["log"] if e["ev"] == "start" and e["view"]["sel"]][:3]})
-    c.assumptions += ["the family's fields take no arguments, so 'with its resolved arguments' is not exercised",
+    c.assumptions += ["arguments are exercised on one field with two Int arguments (literals, variables supplied / defaulted / omitted)",
                       "a view may list fields under a type condition that does not match the runtime type (superset by type)"]
 
 
